@@ -9,6 +9,8 @@ Personalities: `minimal` (IPM device global commands and chassis only), `plain` 
 linear sensors, every configured channel has a link), `sdrtypes` (plain + one SDR of every record type of
 IPMI v2.0 ch. 43, most of which carry no ID string / no entity), `nonlinear` (plain + full sensors whose
 linearisation is 1/x, ln, log10 - with a raw reading of 0 or unused threshold bytes of 0 - sqrt, x^2, e^x),
+`unavailable` (plain + a threshold and a discrete sensor that flag "reading/state unavailable", table 35-15
+byte 3 bit 5, as a sensor does during its initial update or right after a re-arm),
 `full` (everything: both SDR sets, a base channel without link, the HPM.1 upgrade commands).  A conforming
 controller may be any of them.
 
@@ -184,7 +186,15 @@ def sdrs_nonlinear(first_id):
     return recs, readings
 
 
-PROFILES = ('full', 'minimal', 'plain', 'sdrtypes', 'nonlinear')
+def sdrs_unavailable(first_id):
+    """(records, sensor readings): a full and a compact sensor whose Get Sensor Reading reply flags
+    "reading/state unavailable" (byte 3 bit 5): the reading and state bytes are then not valid"""
+    r = first_id
+    return ([sdr_full(r, 0x34, 'Standby Temp'), sdr_compact(r + 1, 0x35, 'PSU Status')],
+            {0x34: [0x00, 0x00, 0xe0, 0x00], 0x35: [0x00, 0x00, 0xe0, 0x00, 0x80]})
+
+
+PROFILES = ('full', 'minimal', 'plain', 'sdrtypes', 'nonlinear', 'unavailable')
 
 
 class Bmc20(object):
@@ -208,6 +218,10 @@ class Bmc20(object):
             self.readings.update(rd)
         if profile in ('full', 'nonlinear'):
             recs, rd = sdrs_nonlinear(0x20)
+            self.sdrs += recs
+            self.readings.update(rd)
+        if profile in ('full', 'unavailable'):
+            recs, rd = sdrs_unavailable(0x30)
             self.sdrs += recs
             self.readings.update(rd)
         self.linkless = profile == 'full'       # base channel 3 is configured but carries no link
